@@ -63,6 +63,8 @@ type Options struct {
 	Tweak func(d *m.Design)
 	// AvoidIfOpen lists further known findings this campaign steers away from while they are open.
 	AvoidIfOpen []string
+	// Extra lists fixed designs checked in addition to the N generated ones.
+	Extra []*m.Design
 }
 
 // Prepare generates, builds and starts n designs (or loads the one of a
@@ -101,6 +103,7 @@ func Prepare(t *testing.T, tag string, o Options) (*pipeline.Session, []*Built) 
 			}
 			designs = append(designs, d)
 		}
+		designs = append(designs, o.Extra...)
 	}
 	built := make([]*Built, len(designs))
 	var wg sync.WaitGroup
